@@ -19,10 +19,23 @@ AGENT_EXECUTING_PENDING = 'AGENT_EXECUTING_PENDING'
 
 
 class FastQueue(queue.Queue):
-    """queue.Queue whose get() never waits."""
+    """queue.Queue whose get() never waits.  `mid_drain`, if set, is called once
+    at the start of the get() that FOLLOWS the next successful get(): the driver
+    uses it to deliver a control message in the middle of the scheduler's queue
+    drain, after the tasks just pulled were looked at and before the drain ends."""
+
+    mid_drain = None
+    _pulled = False
 
     def get(self, block=True, timeout=None):
-        return queue.Queue.get(self, block=False)
+        if self._pulled and self.mid_drain:
+            cb, self.mid_drain = self.mid_drain, None
+            self._pulled = False
+            cb()
+        item = queue.Queue.get(self, block=False)
+        if self.mid_drain:
+            self._pulled = True
+        return item
 
 
 class FakeInput:
@@ -42,10 +55,20 @@ def num_of(uid):
     return int(uid.split('.')[1])
 
 
+def tag_value(k):
+    '''colocate tag values as applications write them: strings, but also falsy legal values (0, '')'''
+    return {2: 0, 3: ''}.get(k, 'tag%d' % k)
+
+
+def tag_id(s):
+    '''inverse, on the stringified tag the scheduler keeps in its history'''
+    return {'0': 2, '': 3}.get(s) or int(s[3:])
+
+
 def task_dict(r):
     tags = {}
     if r.get('colo') is not None:
-        tags['colocate'] = 'tag%d' % r['colo']
+        tags['colocate'] = tag_value(r['colo'])
         if r.get('excl'):
             tags['exclusive'] = True
     slots = None
@@ -183,7 +206,7 @@ class SchedDriver:
         for p in sorted(s._waitpool.keys()):
             if s._waitpool[p]:
                 pool.append([p, [num_of(u) for u in s._waitpool[p].keys()]])
-        colo = sorted([[int(k[3:]), [int(i) for i in v]] for k, v in s._colo_history.items()])
+        colo = sorted([[tag_id(k), [int(i) for i in v]] for k, v in s._colo_history.items()])
         strat, self.strategy = self.strategy, []
         return {'events': ev,
                 'nodes': [[[occ_code(c) for c in n['cores']], [occ_code(c) for c in n['gpus']],
@@ -218,6 +241,16 @@ class SchedDriver:
                     s._control_cb('control_pubsub', {'cmd': 'cancel_tasks',
                                                      'arg': {'uids': [uid_of(u) for u in o[1]]}})
                     eff.append(o)
+                elif o[0] == 'cancel_mid':
+                    # the request arrives while the scheduler drains its queue (after the first
+                    # item was pulled).  For the code as it is this is equivalent to a request
+                    # right before the iteration, which is what the model is given.
+                    msg = {'cmd': 'cancel_tasks', 'arg': {'uids': [uid_of(u) for u in o[1]]}}
+                    if s._queue_sched.qsize() > 0 and ops and ops[0][0] == 'iter':
+                        s._queue_sched.mid_drain = lambda m=msg: s._control_cb('control_pubsub', m)
+                    else:
+                        s._control_cb('control_pubsub', msg)
+                    eff.append(['cancel', o[1]])
                 elif o[0] == 'env':
                     s.control_cb('control_pubsub', {'cmd': 'register_named_env',
                                                     'arg': {'env_name': 'env%d' % o[1]}})
@@ -392,7 +425,7 @@ def gen_case(rng, size='small', preplaced=False, disciplined=True):
     uid = 0
     arrived = []
     nops = rng.randint(4, 14 if size == 'small' else 40)
-    ntags = rng.randint(0, 2)
+    ntags = rng.randint(0, 3)
     for _ in range(nops):
         r = rng.random()
         if r < 0.35:
